@@ -22,9 +22,11 @@ import (
 
 func TestMain(m *testing.M) { drv.Main(m) }
 
-const rule = "state machine on the real application (tx semantics): 3 owners x denoms {foo, foobar, fooz} x durations reused from a small pool (1ns..14d, +-1ns neighbours, MaxInt64) so many locks share a key; MsgLockTokens (new / add-to-existing), MsgExtendLockup, MsgBeginUnlocking full and partial (split), MsgBeginUnlockingAll, MsgSetRewardReceiverAddress, failing variants (wrong owner, too much, already unlocking, unauthorised force unlock), time advances (0, 1ns, to an end time -1ns/0/+1ns, days) with the lockup EndBlocker on the 120-block cadence; oracle: in-memory lock list; after every step module balance == sum of locks, accumulation(denom, d) == sum over live locks with duration >= d for every d used +-1ns, every by-id/owner/denom/duration/time getter and gRPC query with generated arguments == the model's filter, owner balance + locked constant; non-trivial = history with a split, two locks sharing (denom,duration), an extend and a matured withdrawal; distinct by history hash"
+const rule = "state machine on the real application (tx semantics): 3 owners x denoms {foo, foobar, fooz, cl/pool/7 (a concentrated share denom: burned, not returned, at withdrawal)} x durations reused from a small pool (1ns..14d, +-1ns neighbours, MaxInt64) so many locks share a key; MsgLockTokens (new / add-to-existing), MsgExtendLockup, MsgBeginUnlocking full and partial (split), MsgBeginUnlockingAll, MsgSetRewardReceiverAddress, failing variants (wrong owner, too much, already unlocking, unauthorised force unlock), time advances (0, 1ns, to an end time -1ns/0/+1ns, days) with the lockup EndBlocker on the 120-block cadence; oracle: in-memory lock list; after every step module balance == sum of locks, accumulation(denom, d) == sum over live locks with duration >= d for every d used +-1ns, every by-id/owner/denom/duration/time getter and gRPC query with generated arguments == the model's filter, owner balance + locked constant; non-trivial = history with a split, two locks sharing (denom,duration), an extend and a matured withdrawal; distinct by history hash"
 
-var denoms = []string{"foo", "foobar", "fooz"}
+// the last denom is a concentrated-liquidity share denom: the module burns such coins when the lock is withdrawn (the
+// position they tokenise carries the value) instead of returning them
+var denoms = []string{"foo", "foobar", "fooz", "cl/pool/7"}
 
 type mlock struct {
 	id       uint64
@@ -43,6 +45,7 @@ type world struct {
 	locks  map[uint64]*mlock
 	lastID uint64
 	funded map[string]*big.Int // owner/denom -> faucet total
+	burned map[string]*big.Int // owner/denom -> concentrated share coins burned at the withdrawal of matured locks
 	durs   []time.Duration
 }
 
@@ -192,6 +195,9 @@ func (w *world) invariants(rt *rapid.T) {
 			if f == nil {
 				f = new(big.Int)
 			}
+			if b := w.burned[key(o, dn)]; b != nil {
+				locked.Add(locked, b)
+			}
 			if new(big.Int).Add(bal, locked).Cmp(f) != 0 {
 				rt.Fatalf("owner %d: balance %s + locked %s of %s != %s ever received (coins left the module early, late, or to someone else)", o, bal, locked, dn, f)
 			}
@@ -284,7 +290,7 @@ func (w *world) queries(rt *rapid.T) {
 	for i := 0; i < 3; i++ {
 		o := rapid.IntRange(0, 3).Draw(rt, "qOwner") // owner 3 never locks anything
 		addr := chain.Actor(o)
-		dn := denoms[rapid.IntRange(0, 2).Draw(rt, "qDenom")]
+		dn := denoms[rapid.IntRange(0, len(denoms)-1).Draw(rt, "qDenom")]
 		d := w.genDur(rt, "qDur")
 		ts := w.genTime(rt, "qTime")
 		rem := time.Duration(0)
@@ -436,7 +442,7 @@ func genAmt(rt *rapid.T, label string, max *big.Int) *big.Int {
 func TestPropLockup(t *testing.T) {
 	drv.Check(t, drv.Cfg{Name: "lockup-vs-model", Rule: rule, Quick: 300, Thorough: 5000, Steps: 35, TSteps: 70}, func(rt *rapid.T, cs *drv.Case) {
 		c := chain.New(t)
-		w := &world{c: c, locks: map[uint64]*mlock{}, funded: map[string]*big.Int{}}
+		w := &world{c: c, locks: map[uint64]*mlock{}, funded: map[string]*big.Int{}, burned: map[string]*big.Int{}}
 		w.lastID = c.App.LockupKeeper.GetLastLockID(c.Ctx)
 		for o := 0; o < 3; o++ {
 			for _, dn := range denoms {
@@ -465,7 +471,7 @@ func TestPropLockup(t *testing.T) {
 		lockAction = func(rt *rapid.T) {
 			func(rt *rapid.T) {
 				o := rapid.IntRange(0, 2).Draw(rt, "owner")
-				dn := denoms[rapid.IntRange(0, 2).Draw(rt, "denom")]
+				dn := denoms[rapid.IntRange(0, len(denoms)-1).Draw(rt, "denom")]
 				d := w.genDur(rt, "dur")
 				bal := c.Bal(chain.Actor(o), dn).Amount.BigInt()
 				if bal.Sign() == 0 {
@@ -648,6 +654,12 @@ func TestPropLockup(t *testing.T) {
 				if cadence {
 					for id, l := range w.locks {
 						if l.unlocking() && !l.end.After(c.Ctx.BlockTime()) {
+							if strings.HasPrefix(l.denom, "cl/pool") {
+								if w.burned[key(l.owner, l.denom)] == nil {
+									w.burned[key(l.owner, l.denom)] = new(big.Int)
+								}
+								w.burned[key(l.owner, l.denom)].Add(w.burned[key(l.owner, l.denom)], l.amt)
+							}
 							delete(w.locks, id)
 							didMature = true
 						}
